@@ -3,6 +3,7 @@ package v1
 import (
 	"math/big"
 	"net/http"
+	"strconv"
 	"strings"
 
 	"github.com/formancehq/go-libs/v5/pkg/query"
@@ -57,7 +58,12 @@ func mapTransactionToV1(tx ledger.Transaction) any {
 func buildGetTransactionsQuery(r *http.Request) query.Builder {
 	clauses := make([]query.Builder, 0)
 	if after := r.URL.Query().Get("after"); after != "" {
-		clauses = append(clauses, query.Lt("id", after))
+		// ids are numeric: the filter validation refuses a string (anything that is not a number stays one and is a 400)
+		var value any = after
+		if id, err := strconv.ParseUint(after, 10, 64); err == nil {
+			value = id
+		}
+		clauses = append(clauses, query.Lt("id", value))
 	}
 
 	// Support both startTime (new) and start_time (deprecated) parameters
